@@ -140,7 +140,17 @@ var yieldSeed, yieldCtr atomic.Uint64
 // up behind the lock (directed shapes `ylock=<ms>`).
 var lockSleepMs atomic.Int64
 
+// closeSleepMs > 0 (head option yclose=<ms>): the elected Client.Close sleeps that long right after it has
+// taken the state - long enough for a handshake that was under way to finish its packets
+var closeSleepMs atomic.Int64
+
 func yield(site string) {
+	if site == "Client.Close.elected" {
+		if ms := closeSleepMs.Load(); ms > 0 {
+			time.Sleep(time.Duration(ms) * time.Millisecond)
+			return
+		}
+	}
 	if site == "Deadline.SetDeadline.locked" {
 		if ms := lockSleepMs.Load(); ms > 0 {
 			time.Sleep(time.Duration(ms) * time.Millisecond)
@@ -336,9 +346,13 @@ func runLin(in *bufio.Scanner, out *bufio.Writer) {
 		j := min(i+linBatch, len(cases))
 		var wg sync.WaitGroup
 		lockSleepMs.Store(0)
+		closeSleepMs.Store(0)
 		for _, lc := range cases[i:j] {
 			if ms, err := strconv.ParseInt(lc.kv["ylock"], 10, 64); err == nil && ms > 0 {
 				lockSleepMs.Store(ms)
+			}
+			if ms, err := strconv.ParseInt(lc.kv["yclose"], 10, 64); err == nil && ms > 0 {
+				closeSleepMs.Store(ms)
 			}
 		}
 		for _, lc := range cases[i:j] {
